@@ -64,6 +64,18 @@ def check_C01(inp):
     return None
 
 
+def check_C02(inp):
+    from spec import v4 as S4_
+
+    vector = inp["vector"]
+    c = lib().CVSS4(vector)
+    o = parse_fields(vector, 1)
+    exp = fl(S4_.score(o))
+    if not (same_float(c.base_score, exp) and c.scores() == (c.base_score,)):
+        return "base_score = %r, scores() = %r, specification = %r" % (c.base_score, c.scores(), exp)
+    return None
+
+
 def check_C03(inp):
     vector = inp["vector"]
     c = lib().CVSS2(vector)
